@@ -44,6 +44,7 @@ type Case struct {
 	MountCands  []string // candidate repositories MountFrom returns (may repeat, may name repositories without the blob)
 	Depth       int      // ExtendedCopy* only (0: unlimited)
 	StaleFiles  bool     // see GenOpts.StaleFiles
+	OmitCB      []string // callbacks left unset by the caller ("pre", "post", "skipped", "mounted")
 	FilterAnno  string   // ExtendedCopyGraph only: FilterAnnotation(key, nil) is installed (changes the set that is copied: accounting checks only)
 	RefIsDigest bool     // the source reference is the root's digest string
 	FilterAll   bool     // ExtendedCopy*: install FilterArtifactType with a match-all regex (exercises the filter listing path)
@@ -83,6 +84,7 @@ type GenOpts struct {
 	ManifestAsBlob bool // allow the C01 finding shape
 	RaceWriter     bool // allow a simulated concurrent writer on one node
 	Trees          bool // allow interior nodes of an unknown media type, traversed by a custom FindSuccessors (Copy / CopyGraph only)
+	OptionalCB     bool // the caller may leave some of the four callbacks unset
 	StaleFiles     bool // file-store destination: longer files already sit at the names of titled blobs (left by an earlier session)
 	FullNameRef    bool // allow a source reference shaped like a full image name (registry/repository:tag) on non-registry stores
 	TitleClash     bool // allow two different blobs under one title (file-store destination must fail the copy)
@@ -152,6 +154,13 @@ func GenCase(rng *rand.Rand, o GenOpts) *Case {
 	c.SrcRef = "src-tag"
 	if o.FullNameRef && c.SrcKind != "remote" && c.DstKind != "remote" && rng.IntN(4) == 0 {
 		c.SrcRef = "registry.example.com/team/app:1.0" // what exported layouts commonly carry as reference name
+	}
+	if o.OptionalCB && rng.IntN(3) == 0 {
+		for _, k := range []string{"pre", "post", "skipped", "mounted"} {
+			if rng.IntN(2) == 0 {
+				c.OmitCB = append(c.OmitCB, k)
+			}
+		}
 	}
 	c.StaleFiles = o.StaleFiles && c.DstKind == "file" && go_.Titles && rng.IntN(2) == 0
 	if rng.IntN(2) == 0 {
@@ -304,7 +313,7 @@ func (c *Case) Describe() map[string]any {
 	return map[string]any{
 		"api": c.API, "src": c.SrcKind, "dst": c.DstKind, "root": c.Root, "expected_root": c.Expect, "concurrency": c.Conc,
 		"src_ref": c.SrcRef, "dst_ref": c.DstRef, "map_root": c.MapRoot, "platform": c.Platform, "prepopulated": c.Prepop,
-		"depth": c.Depth, "filter_annotation_key": c.FilterAnno, "ref_is_root_digest": c.RefIsDigest, "pre_tagged_node": c.PreTag, "racing_writer_node": c.RaceNode, "max_metadata_bytes": c.MaxMeta, "delay_max_us": c.Delay.Microseconds(), "delay_seed": c.Seed, "mount": c.Mount,
+		"depth": c.Depth, "filter_annotation_key": c.FilterAnno, "callbacks_left_unset": c.OmitCB, "ref_is_root_digest": c.RefIsDigest, "pre_tagged_node": c.PreTag, "racing_writer_node": c.RaceNode, "max_metadata_bytes": c.MaxMeta, "delay_max_us": c.Delay.Microseconds(), "delay_seed": c.Seed, "mount": c.Mount,
 		"dag": c.G.Describe(c.Root),
 	}
 }
@@ -386,6 +395,13 @@ func (c *Case) Run(ctx context.Context, e *Env) (ocispec.Descriptor, error) {
 	var gopts oras.CopyGraphOptions
 	gopts.Concurrency = c.Conc
 	gopts.MaxMetadataBytes = c.MaxMeta
+	e.Mon.Omit = map[string]bool{}
+	for _, k := range c.OmitCB {
+		e.Mon.Omit[k] = true
+	}
+	if len(e.Mon.Omit) == 0 {
+		e.Mon.Omit = nil
+	}
 	e.Mon.Hooks(&gopts)
 	if g.HasTrees() {
 		gopts.FindSuccessors = gen.TreeSuccessors
